@@ -508,6 +508,37 @@ func (r *vRepo) add(pos int, e vEntry) error {
 	return nil
 }
 
+// addPolicyState commits the given abstract policy as the next policy state and records its entry.
+func (r *vRepo) addPolicyState(pos int, ap *conc.AbsPolicy) error {
+	md, _ := conc.BuildMetadata(ap, r.seed)
+	mdTree, err := md.WriteTree(r.h)
+	if err != nil {
+		return err
+	}
+	root, err := r.h.WriteTree([]gitstore.TreeEntry{{Path: "metadata", ID: mdTree, Kind: gitstore.KindSubtree}})
+	if err != nil {
+		return err
+	}
+	var parents []githash.Hash
+	if r.polTip != nil {
+		parents = []githash.Hash{r.polTip}
+	}
+	target, err := r.s.MakeCommit(root, parents, fmt.Sprintf("policy state at %d", pos), nil)
+	if err != nil {
+		return err
+	}
+	r.polTip = target
+	r.s.RawSetRef(policy.PolicyRef, target)
+	r.s.RawSetRef(policy.PolicyStagingRef, target)
+	id, err := r.appendRSL(r.refEntryText("ref", policy.PolicyRef, target), "root")
+	if err != nil {
+		return err
+	}
+	r.targets = append(r.targets, target)
+	r.ids = append(r.ids, id)
+	return nil
+}
+
 // addRefTarget appends a reference entry for ref naming an existing commit.
 func (r *vRepo) addRefTarget(ref, signer string, target githash.Hash) error {
 	r.s.RawSetRef(fullRef(ref), target)
